@@ -353,7 +353,8 @@ def main():
                   f"  MaxIts <- MaxItsA\n  TdMasks <- AllMasks\n  InitSel <- InitAll\n  SThr <- SThrHalf\n")
         rp = hvsrobj.Replayer(run, hvsrpy, graph, ALPHA6[:6], na, 3, 6, consts, focus={"Init"})
         hook = PlotHook(run, hvsrpy, na, stride)
-        for fenc, aenc in (("N", "N"), ("L", "L")):
+        # (N, L) and (L, N): the distribution of the mean curve differs from the distribution of fn
+        for fenc, aenc in (("N", "N"), ("L", "L"), ("N", "L")) + ((("L", "N"),) if not quick else ()):
             rp.replay(hvsrobj.Instance(6, fenc, aenc), state_hook=hook)
         rp.validate_pending()
         # read-only verdict by TLC: every recorded ReadOnly event must leave all object variables unchanged
